@@ -44,13 +44,15 @@ def _has_id_intersection(parent: 'Task', children: Iterable['Task']):
         all_children_tasks += _collect_subtree(ch)
 
     parent_tree_object_ids = set([id(t) for t in parent_tree])
-    new_tasks = [t for t in all_children_tasks if id(t) not in parent_tree_object_ids]
+    new_tasks = _unique_objects([t for t in all_children_tasks if id(t) not in parent_tree_object_ids])
 
     if len(new_tasks) == 0:
         return False
 
     parent_tree_ids = set([t.id for t in parent_tree])
     new_task_ids = set([t.id for t in new_tasks])
+    if len(new_task_ids) != len(new_tasks):
+        return True
     return len(parent_tree_ids.intersection(new_task_ids)) > 0
 
 
